@@ -421,7 +421,11 @@ func checkC04(r *core.Run) {
 	// the block's flags are those of its height also on the reorganisation / re-apply paths (shared with C06)
 	c06FlagsAfterHeight(r, p, "R-C04-scripts")
 	c04TrustPerTx(r, p, ct, "R-C04-scripts")
-	c04SpendMarked(r, p, ct)
+	c04SpendMarked(r, p, ct, "R-C04-inputs")
+	// a failed check of a block's transaction reported by a worker reaches the caller (shared with C05)
+	nonBlockingSendsKept(r, p, "R-C04-money", "checker-verdicts-kept", func(path string) bool {
+		return strings.HasSuffix(path, "lib/chain") || strings.HasSuffix(path, "lib/btc") || strings.HasSuffix(path, "lib/utxo")
+	})
 	c04SigopTable(r, p)
 	// the maturity test reads the coinbase flag and height of the spent record: both must survive a disconnect, so the
 	// undo record collected here has to carry every field of the spent record (rule shared with C06)
@@ -1016,8 +1020,8 @@ func c04FailCounter(fn *ssa.Function) func(*ssa.If) (bool, bool) {
 // (DeledTxs[txid][vout] = true) on every way from the successful look-up to the next input - not only when
 // the table entry for that transaction is created.  The mark is what the double-spend test of a later input
 // of the same block reads, and what removes the output from the set when the block is committed.
-func c04SpendMarked(r *core.Run, p *core.Program, ct *ssa.Function) {
-	const rule, key = "R-C04-inputs", "confirmed-spend-marked"
+func c04SpendMarked(r *core.Run, p *core.Program, ct *ssa.Function, rule string) {
+	const key = "confirmed-spend-marked"
 	var marks []*ssa.Store
 	an.Instrs(ct, func(i ssa.Instruction) {
 		st, ok := i.(*ssa.Store)
